@@ -86,46 +86,76 @@ Proof.
   destruct Hin as [<-|Hin]; [now apply N.eqb_neq|auto].
 Qed.
 
-Lemma pick_perm u l c r : pick u l = Some (c, r) -> Permutation l (c :: r) /\ c_ud c = u.
+Lemma pick_by_perm p l c r : pick_by p l = Some (c, r) -> Permutation l (c :: r) /\ p c = true.
 Proof.
   revert c r. induction l as [|x l IH]; cbn; intros c r H; [discriminate|].
-  destruct (c_ud x =? u) eqn:E.
-  - inversion H; subst. split; [reflexivity|now apply N.eqb_eq].
-  - destruct (pick u l) as [[y r']|]; [|discriminate]. inversion H; subst.
+  destruct (p x) eqn:E.
+  - inversion H; subst. split; [reflexivity|exact E].
+  - destruct (pick_by p l) as [[y r']|]; [|discriminate]. inversion H; subst.
     destruct (IH _ _ eq_refl) as [P Q]. split; [|exact Q].
     eapply perm_trans; [apply perm_skip, P|apply perm_swap].
 Qed.
 
-Lemma pick_none u l : pick u l = None -> forall c, In c l -> c_ud c <> u.
+Lemma pick_perm u l c r : pick u l = Some (c, r) -> Permutation l (c :: r).
 Proof.
-  induction l as [|x l IH]; cbn; intros H c Hin; [contradiction|].
-  destruct (c_ud x =? u) eqn:E; [discriminate|].
-  destruct (pick u l) as [[y r']|] eqn:F; [discriminate|].
-  destruct Hin as [<-|Hin]; [now apply N.eqb_neq|auto].
+  unfold pick. destruct (pick_by (exact u) l) as [[y r']|] eqn:E.
+  - intros H. inversion H; subst. now apply pick_by_perm in E.
+  - intros H. now apply pick_by_perm in H.
 Qed.
 
 Lemma reorder_perm order batch : Permutation (reorder order batch) batch.
 Proof.
   revert batch. induction order as [|u o IH]; intros batch; cbn; [reflexivity|].
   destruct (pick u batch) as [[c rest]|] eqn:P; [|apply IH].
-  apply pick_perm in P as [P _]. eapply perm_trans; [apply perm_skip, IH|now symmetry].
+  apply pick_perm in P. eapply perm_trans; [apply perm_skip, IH|now symmetry].
 Qed.
 
 (* Every arrangement of a batch whose user_data are pairwise distinct is
    produced by some `order` argument: the model's shuffle argument covers all
    permutations the implementation's rng can draw. *)
-Lemma pick_head_distinct c l1 l2 :
-  ~ In (c_ud c) (map c_ud l1) -> pick (c_ud c) (l1 ++ c :: l2) = Some (c, l1 ++ l2).
+Definition key (c : scqe) : N * Z := (c_ud c, match c_app c with AErr e => e | _ => 0%Z end).
+
+Lemma pick_by_none p l : (forall x, In x l -> p x = false) -> pick_by p l = None.
 Proof.
-  induction l1 as [|x l1 IH]; intros Hn; cbn.
-  - now rewrite N.eqb_refl.
-  - cbn in Hn. destruct (c_ud x =? c_ud c) eqn:E.
-    + apply N.eqb_eq in E. exfalso. apply Hn. now left.
-    + rewrite IH; [reflexivity|]. intro. apply Hn. now right.
+  induction l as [|x l IH]; cbn; intros H; [reflexivity|]. rewrite (H x (or_introl eq_refl)).
+  rewrite IH; [reflexivity|]. intros y Hy. apply H. now right.
+Qed.
+
+Lemma pick_by_head p c l1 l2 :
+  (forall x, In x l1 -> p x = false) -> p c = true -> pick_by p (l1 ++ c :: l2) = Some (c, l1 ++ l2).
+Proof.
+  induction l1 as [|x l1 IH]; intros H Hc; cbn.
+  - now rewrite Hc.
+  - rewrite (H x (or_introl eq_refl)). rewrite IH; [reflexivity| |exact Hc]. intros y Hy. apply H. now right.
+Qed.
+
+Lemma pick_head_distinct c l1 l2 :
+  ~ In (c_ud c) (map c_ud (l1 ++ l2)) -> pick (key c) (l1 ++ c :: l2) = Some (c, l1 ++ l2).
+Proof.
+  intros Hn. unfold pick.
+  assert (Other : forall q x, In x (l1 ++ l2) -> (c_ud x =? fst (key c)) && q x = false).
+  { intros q x Hx. cbn. destruct (c_ud x =? c_ud c) eqn:E; [|reflexivity].
+    apply N.eqb_eq in E. exfalso. apply Hn. rewrite <- E. now apply in_map. }
+  destruct (is_op c) eqn:O.
+  - (* c executes an operation: the exact pass finds nothing, the loose pass finds c *)
+    rewrite pick_by_none.
+    + apply pick_by_head.
+      * intros x Hx. unfold loose. rewrite (Other is_op x); [reflexivity|]. apply in_or_app. now left.
+      * unfold loose, key. cbn. rewrite N.eqb_refl, O. unfold is_op in O.
+        destruct (c_app c); try discriminate; reflexivity.
+    + intros x Hx. apply in_app_or in Hx as [Hx|[<-|Hx]].
+      * apply (Other (is_err (snd (key c)))). apply in_or_app. now left.
+      * unfold exact, key, is_err. cbn. unfold is_op in O. destruct (c_app c); try discriminate; now rewrite andb_false_r.
+      * apply (Other (is_err (snd (key c)))). apply in_or_app. now right.
+  - (* c is an error constant: the exact pass finds it *)
+    rewrite pick_by_head; [reflexivity| |].
+    + intros x Hx. apply (Other (is_err (snd (key c)))). apply in_or_app. now left.
+    + unfold exact, key, is_err. cbn. rewrite N.eqb_refl. unfold is_op in O.
+      destruct (c_app c); try discriminate. cbn. apply Z.eqb_refl.
 Qed.
 
 Lemma reorder_onto batch target :
-  Permutation target batch -> NoDup (map c_ud batch) -> reorder (map c_ud target) batch = target.
+  Permutation target batch -> NoDup (map c_ud batch) -> reorder (map key target) batch = target.
 Proof.
   revert batch. induction target as [|c t IH]; intros batch P ND; cbn.
   - apply Permutation_nil in P. now subst.
@@ -137,9 +167,25 @@ Proof.
     assert (ND' : NoDup (map c_ud (c :: l1 ++ l2))).
     { eapply Permutation_NoDup; [|exact ND]. apply Permutation_map, Permutation_sym, Permutation_middle. }
     cbn in ND'. inversion ND' as [|? ? Hn Hd]; subst.
-    rewrite (pick_head_distinct c l1 l2).
-    + f_equal. now apply IH.
-    + intro Hi. apply Hn. rewrite map_app. apply in_or_app. now left.
+    rewrite (pick_head_distinct c l1 l2 Hn). f_equal. now apply IH.
+Qed.
+
+(* keys whose user_data does not occur among the queued entries are not consumed *)
+Lemma drop_key_skip e order :
+  (forall k, In k order -> fst k <> c_ud e) -> drop_key e order = order.
+Proof.
+  induction order as [|k t IH]; cbn; intros H; [reflexivity|].
+  assert (E : c_ud e =? fst k = false).
+  { apply N.eqb_neq. intro X. apply (H k (or_introl eq_refl)). now symmetry. }
+  unfold exact, loose. rewrite E. cbn. f_equal. apply IH. intros k' Hk'. apply H. now right.
+Qed.
+
+Lemma consume_skip rdy : forall order,
+  (forall k e, In k order -> In e rdy -> fst k <> c_ud e) -> consume rdy order = order.
+Proof.
+  induction rdy as [|e rdy IH]; intros order H; cbn; [reflexivity|].
+  rewrite drop_key_skip; [|intros k Hk; apply (H k e Hk); now left].
+  apply IH. intros k e' Hk He. apply (H k e' Hk). now right.
 Qed.
 
 (* The promotion loop neither loses nor duplicates entries, and everything it
